@@ -264,6 +264,63 @@ func runC02(ctx *core.Ctx) {
 		return gen.Serialize(cs.R, []*gen.Node{nd}, 1+cs.R.Intn(3)), true
 	}
 	docWorkload(ctx, spec.GenOpts{Styles: true}, ctx.N(3000, 50000), ctx.N(200, 400), ctx.N(3, 4), []string{"ugc", "pattern-everything", "foreign"}, single, c02Judge)
+	// managed attributes without their options: rel, target, crossorigin and sandbox are ordinary attributes
+	// while no link option, RequireCrossOriginAnonymous or RequireSandboxOnIFrame is set; whatever the output
+	// carries must come from a rule. Values from HTML's own keyword tables.
+	ctx.Run("managed-attributes-without-options", ctx.N(600, 6000), func(cs *core.Case) {
+		r := cs.R
+		els := []string{"a", "area", "link", "img", "audio", "video", "iframe", "source", "base", "p"}
+		pool := []string{"href", "src", "target", "rel", "crossorigin", "sandbox", "x", "type", "download"}
+		var allowed []string
+		for _, k := range pool {
+			if r.Intn(2) == 0 {
+				allowed = append(allowed, k)
+			}
+		}
+		ops := []spec.Op{{K: spec.KNew}, {K: spec.KAllowElements, Names: els}}
+		if len(allowed) > 0 {
+			switch r.Intn(3) {
+			case 0:
+				ops = append(ops, spec.Op{K: spec.KAllowAttrs, Attrs: allowed, Scope: "els", Names: els})
+			case 1:
+				ops = append(ops, spec.Op{K: spec.KAllowAttrs, Attrs: allowed, Scope: "global"})
+			default:
+				ops = append(ops, spec.Op{K: spec.KAllowAttrs, Attrs: allowed, Scope: "match", ElRe: `^[a-z]+$`})
+			}
+		}
+		switch r.Intn(3) {
+		case 0:
+			ops = append(ops, spec.Op{K: spec.KSwitch, Names: []string{spec.SwParseable}, B: true}, spec.Op{K: spec.KSchemes, Names: []string{"http", "https", "mailto"}}, spec.Op{K: spec.KSwitch, Names: []string{spec.SwRelative}, B: r.Intn(2) == 0})
+		case 1:
+			ops = append(ops, spec.Op{K: spec.KSwitch, Names: []string{spec.SwAddSpaces}, B: true})
+		}
+		env := NewEnv(ops)
+		lc := core.LocalCounts{}
+		for i := 0; i < 120; i++ {
+			el := els[r.Intn(len(els))]
+			nd := &gen.Node{Name: el, NoEnd: true}
+			for _, k := range pool {
+				if r.Intn(2) == 0 {
+					continue
+				}
+				v, _ := gen.WellKnownAttrValue(r, k)
+				switch k {
+				case "href", "src":
+					v = gen.Pick(r, []string{"http://example.org/", "https://example.org/a?b=c", "/rel", "mailto:a@example.org", "//cdn.example.net/x", "#f"})
+				case "x":
+					v = "y"
+				}
+				nd.Attrs = append(nd.Attrs, [2]string{k, v})
+			}
+			r.Shuffle(len(nd.Attrs), func(i, j int) { nd.Attrs[i], nd.Attrs[j] = nd.Attrs[j], nd.Attrs[i] })
+			ob := observe(env, gen.Serialize(r, []*gen.Node{nd}, 0), i)
+			cs.Eval()
+			lc["managed_attribute_tags_without_options"]++
+			c02Judge(cs, ob, lc)
+		}
+		cs.Flush(lc)
+	})
+	ctx.Floor("managed_attribute_tags_without_options", 50000)
 	ctx.MinNontrivial(int64(ctx.N(5000, 100000)))
 	ctx.Floor("output_attributes_judged", 20000)
 	ctx.Floor("bare_tags_judged", 5000)
